@@ -25,6 +25,10 @@ def prepare(case):
         spec = graph_spec_u(names, edges, roots, umix, d.get("inline", "string"))
     else:
         spec = graph_spec(names, edges, roots)
+    # `deprecated: true` on some schemas (an annotation: it must not move Box, `#[default]` or the variant order)
+    assert all(x in names for x in d.get("deprecated") or [])
+    for n in d.get("deprecated") or []:
+        spec["components"]["schemas"][n]["deprecated"] = True
     base = {"spec": spec, "cfg": {"all_schemas": True, "no_helpers": bool(d.get("no_helpers"))}, "mode": "client-mod", "judges": ["size", "default"],
             "schemas": spec["components"]["schemas"]}      # the schemas: model of the boxing rule, class predicates
     if case["op"] == "graph.analyze":
@@ -74,6 +78,15 @@ def cases(ctx):
         out.append({"op": "graph.emit", "in": {"names": names, "edges": [list(e) for e in edges]}})
         out.append({"op": "graph.analyze", "in": {"names": names, "edges": [list(e) for e in edges]}})
     return out
+
+
+def deprecate(r, cases, share):
+    """mark 1-2 schemas of a share of the cases as deprecated (every non-empty subset of a two-node graph)"""
+    for c in cases:
+        d = c["in"]
+        if "names" in d and not d.get("rt") and r.random() < share:
+            d["deprecated"] = r.sample(d["names"], r.randint(1, min(2, len(d["names"]))))
+    return cases
 
 
 def emit_case(names, edges, **opts):
@@ -177,7 +190,18 @@ def run(ctx):
         corpus = vlib_corpus(ctx)
         risky = [c for c in corpus if c["op"] == "graph.emit" and not c["in"].get("rt") and not c["in"].get("no_helpers") and overflow_shape(c["in"])] + risky
         risky = [c for c in risky if not c["in"].get("rt")]
-        allc = [c for c in corpus if c not in risky] + ucases + rt_cases(ctx) + cases(ctx)
+        # the named documents once more with their FIRST schema(s) deprecated, and a share of everything else
+        import copy
+        dep = []
+        for t in UNION_TEMPLATES:
+            for k in (1, 2):
+                for nh in (False, True):
+                    for pick in (t["names"][:k], t["names"][-k:]):
+                        c = emit_case(t["names"], t["edges"], umix=t.get("umix"), inline=t.get("inline"), no_helpers=nh, deprecated=list(pick))
+                        if (nh or not overflow_shape(c["in"])) and c not in dep:
+                            dep.append(c)
+        ucases = deprecate(ctx.rng, ucases, 0.25)
+        allc = [c for c in corpus if c not in risky] + dep + ucases + rt_cases(ctx) + deprecate(ctx.rng, cases(ctx), 0.2)
         B = 500
         for i in range(0, len(allc), B):
             ctx.classify(ctx.evaluate(allc[i:i + B]), tie="K+E")
@@ -192,4 +216,4 @@ def run(ctx):
     return ctx.finish(
         checker_cmd="lake build Oas3Model.Props.C10 && #print axioms on every theorem" + ("" if ctx.quick else " && leanchecker"),
         trusted_base=vlib.TRUSTED_BASE + ["the by-value / Box / Vec / map / Option reading of emitted field types (harness/src/k_graph.rs::walk)", "rustc's own E0072 check is not run in the quick tier", "serde's untagged decode = first variant in declaration order whose non-optional members are present (Model/Graph.lean UVariant), documents abstracted to key sets", "better_default's Default expansion: struct -> every field without #[default(..)], enum -> the #[default] variant's payload"],
-        rule="all labelled digraphs on 2 schemas over the 8 edge kinds without allOf cycles (every one thorough; 300 sampled quick), 3-schema graphs with <=3 edges (20000 sampled thorough / 250 quick), random graphs on 3-6 schemas; unions held by value: two-schema graphs with one inline-union / structural-copy edge (9 kinds, + one further edge; all: thorough, 150: quick), 8 named documents, random 2-5 schema mixes, with and without --no-helpers; recursive unions anyOf/oneOf over 6 member kinds in every order of two and random orders of 3-4: the full document of every member must survive the first-accepting-variant decode under the emitted variant order; generated with --all-schemas; the emitted types' by-value containment graph and Default-construction graph must be acyclic (cycle test = the proved `cyclic`); SchemaRegistry's cyclic set compared with the model; non-trivial = >=1 type; distinct by input hash")
+        rule="all labelled digraphs on 2 schemas over the 8 edge kinds without allOf cycles (every one thorough; 300 sampled quick), 3-schema graphs with <=3 edges (20000 sampled thorough / 250 quick), random graphs on 3-6 schemas; unions held by value: two-schema graphs with one inline-union / structural-copy edge (9 kinds, + one further edge; all: thorough, 150: quick), 8 named documents, random 2-5 schema mixes, with and without --no-helpers; `deprecated: true` on the first / last schemas of the named documents and on 1-2 schemas of a fifth of all other graphs; recursive unions anyOf/oneOf over 6 member kinds in every order of two and random orders of 3-4: the full document of every member must survive the first-accepting-variant decode under the emitted variant order; generated with --all-schemas; the emitted types' by-value containment graph and Default-construction graph must be acyclic (cycle test = the proved `cyclic`); SchemaRegistry's cyclic set compared with the model; non-trivial = >=1 type; distinct by input hash")
